@@ -55,7 +55,11 @@ def chain(c, n):
 
 
 def in_subtree(c, root, n, cls=None):
-    """opaque-function wrapper around in_subtree_def (see Ctx.fun)"""
+    """transparent (the per-class definitions are small); an opaque variant is available as in_subtree_opaque"""
+    return in_subtree_def(c, root, n, cls)
+
+
+def in_subtree_opaque(c, root, n, cls=None):
     f = c.fun("in_subtree_%s" % cls, [Int, Int], z3.BoolSort(), lambda r, m: in_subtree_def(c, r, m, cls),
               deps={"ByteInterval": ("$kind", "_byte_interval"), "Section": ("$kind", "_byte_interval", "_section"),
                     "Module": ("$kind", "_byte_interval", "_section", "_module"),
